@@ -382,12 +382,17 @@ func init() {
 			c.runBFS("bfs-marker-over-response-restart-"+kind, sys, depth+1, nil)
 		}
 		c.RunSched(c08Conc(c, "concurrent-writes-then-restart", vsched.Bounds{Preempt: pre, Tick: 0, Data: -1, Total: -1}))
+		c.RunSched(c08ConcLimit(c, "concurrent-writes-one-entry-shard-then-restart", vsched.Bounds{Preempt: pre, Tick: 0, Data: -1, Total: -1}, 1))
 		c08Real(c)
 	})
 }
 
 // concurrent writes of several keys, then a restart on the same disk
-func c08Conc(c *Ctx, name string, b vsched.Bounds) Sched {
+func c08Conc(c *Ctx, name string, b vsched.Bounds) Sched { return c08ConcLimit(c, name, b, 0) }
+
+// c08ConcLimit: limit > 0 puts all keys into one shard holding that many entries, so the entry of a fetch in flight is
+// evicted by the other keys' lookups before its response is stored.
+func c08ConcLimit(c *Ctx, name string, b vsched.Bounds, limit int) Sched {
 	cfg := env.BasicConfig(config.CacheConfig{Store: "fault://c08c"})
 	return Sched{
 		Name:   name,
@@ -397,6 +402,9 @@ func c08Conc(c *Ctx, name string, b vsched.Bounds) Sched {
 			st.Register("fault://c08c")
 			e := getEnv(cfg, "c08c")
 			freshCaches(cfg)
+			if limit > 0 {
+				oneShard("c1", limit, st)
+			}
 			vtime.Set(vtime.Base)
 			vsched.ClockStart = vtime.Base
 			e.Respond = func(oc *env.OriginCall) env.OriginResp { return env.Cacheable(oc, 600, "p") }
@@ -423,6 +431,9 @@ func c08Conc(c *Ctx, name string, b vsched.Bounds) Sched {
 				}
 				// restart on the same disk
 				freshCaches(cfg)
+				if limit > 0 {
+					oneShard("c1", limit, st)
+				}
 				obs = ""
 				for _, u := range uris {
 					r := e.Do(env.Req{URI: u, Rid: "after" + u})
